@@ -16,17 +16,42 @@ K("ct.box_header_prefix", ["C09", "C10"], "jxl-bitstream", BH, BHM, "box_header_
 K("ct.box_types", ["C10"], "jxl-bitstream", BH, BHM, "box_type_codes", "complete", ["ContainerBoxType"],
   "the associated consts are the four-character codes of 18181-2; equality is bytewise")
 
-_STEP = ("requires Inv(DetectState, JxlpIndexState) [derived from emit_single: WaitingSignature => Initial; WaitingJxlpIndex => header is jxlp with "
-         "payload None or >= 4 and Jxlp(i <= 2^31); elsewhere Jxlp(i < 2^31); InAuxBox => type not jxlc/jxlp, bytes_left <= box size, "
-         "brob with unread type => bytes_left == size >= 4, brob with read type => type not reserved and bytes_left <= size-4; "
-         "InCodestream bare/invalid => unbounded and Initial, container => not Initial, pending => unbounded], any remaining buffer <= 24 bytes, "
-         "any previous_consumed_bytes; ensures no panic, result/event/payload range/consumption/next state == spec_step (18181-2 section 9 + C10 text), "
-         "previous_consumed_bytes exact, remaining_input is the unread tail, Err => iterator finished, Inv re-established")
-for _h, _ph in [("step_signature", "WaitingSignature"), ("step_box_header", "WaitingBoxHeader"), ("step_jxlp_index", "WaitingJxlpIndex"),
-                ("step_aux_box", "InAuxBox"), ("step_codestream", "InCodestream")]:
-    K("ct." + _h, ["C10", "C01", "C09"], "jxl-bitstream", PA, PAM, _h,
-      "bounded:one remaining feed buffer <= 24 bytes (all Inv states in phase %s, all byte values); unbounded over histories by induction on Inv" % _ph,
-      ["ParseEvents::next", "ParseEvents::emit_single", "ContainerBoxHeader::parse"], _STEP, timeout=300)
+_INV = ("Inv(DetectState, JxlpIndexState) [derived from emit_single: WaitingSignature => Initial; WaitingJxlpIndex => header is jxlp with "
+        "payload None or >= 4 and Jxlp(i <= 2^31); elsewhere Jxlp(i < 2^31); InAuxBox => type not jxlc/jxlp, bytes_left <= box size, "
+        "brob with unread type => bytes_left == size >= 4, brob with read type => type not reserved and bytes_left <= size-4; "
+        "InCodestream bare/invalid => unbounded and Initial, container => not Initial, pending => unbounded]")
+_STEP = ("requires " + _INV + ", any remaining buffer, any previous_consumed_bytes, iterator finished or not; ensures no panic "
+         "(unreachable!, `as usize - 4`, `bytes_left -= 4`, `index += 1` sites), result/event/payload range/consumption/next state == spec_step "
+         "(18181-2 section 9 + C10 text: kind detection, NoMoreAuxBox, AuxBoxStart/Data/End, Codestream; payload = next min(bytes_left, available) bytes "
+         "of the input by pointer identity; rejection of duplicate jxlc, jxlc after jxlp, out-of-order / post-final jxlp, jxlp < 4, brob < 4, brob of jxl*/brob/jbrd, "
+         "undersized box), previous_consumed_bytes exact, remaining_input is the unread tail, Err => iterator finished, Inv re-established (also after InvalidBox)")
+_FNS = ["ParseEvents::next", "ParseEvents::emit_single", "ContainerBoxHeader::parse"]
+_B = "bounded:one remaining feed buffer <= 24 bytes (all Inv states in phase %s, all byte values); unbounded over feed histories by induction on Inv"
 K("ct.init", ["C10", "C01", "C09"], "jxl-bitstream", PA, PAM, "init_establishes_inv", "complete",
   ["ContainerParser::new", "ContainerParser::kind", "ContainerParser::feed_bytes", "ParseEvents::new", "ContainerParser::previous_consumed_bytes"],
-  "new() satisfies Inv (base case); kind() reflects the state; feed_bytes offers the whole buffer and resets only previous_consumed_bytes")
+  "new() satisfies Inv (base case of the induction); kind() reflects the state; feed_bytes offers the whole buffer and resets only previous_consumed_bytes")
+K("ct.step_signature", ["C10", "C01", "C09"], "jxl-bitstream", PA, PAM, "step_signature", _B % "WaitingSignature", _FNS, _STEP)
+K("ct.step_jxlp_index", ["C10", "C01", "C09"], "jxl-bitstream", PA, PAM, "step_jxlp_index", _B % "WaitingJxlpIndex", _FNS, _STEP)
+K("ct.step_codestream", ["C10", "C01", "C09"], "jxl-bitstream", PA, PAM, "step_codestream", _B % "InCodestream", _FNS, _STEP)
+K("ct.step_aux_plain", ["C10", "C01", "C09"], "jxl-bitstream", PA, PAM, "step_aux_box_plain", _B % "InAuxBox, box type != brob", _FNS, _STEP)
+K("ct.step_aux_4", ["C10", "C01", "C09"], "jxl-bitstream", PA, PAM, "step_aux_box_4",
+  "bounded:remaining feed buffer of exactly 4 bytes (all Inv states in phase InAuxBox incl. brob with read/unread type, all byte values)", _FNS, _STEP)
+# the two general harnesses: every unrolled iteration of emit_single explores all arms (niche-encoded discriminant) -> minutes
+K("ct.step_box_header", ["C10", "C01", "C09"], "jxl-bitstream", PA, PAM, "step_box_header", _B % "WaitingBoxHeader", _FNS, _STEP,
+  tier="thorough", timeout=1200)
+K("ct.step_aux_box", ["C10", "C01", "C09"], "jxl-bitstream", PA, PAM, "step_aux_box", _B % "InAuxBox (all types incl. brob)", _FNS, _STEP,
+  tier="thorough", timeout=1200)
+K("ct.err_then_refeed", ["C01"], "jxl-bitstream", PA, PAM, "err_then_refeed",
+  "bounded:two feeds of exactly 4 bytes each (all Inv states in phase InAuxBox)", ["ParseEvents::next", "ParseEvents::emit_single", "ContainerParser::feed_bytes"],
+  "after a feed returned Err(ValidationFailed) for a brob box of a reserved type, Inv still holds and a further feed_bytes does not panic "
+  "(the other rejections keep Inv: asserted in the step contracts)")
+
+_PFX = ("relational, on spec_step (== ParseEvents::next by the ct.step_* contracts): for S in Inv, buffer B, prefix P = B[..k]: step(S,P) quiet => "
+        "continuing on B[consumed..] equals step(S,B) shifted; reject => same reject; non-payload event => identical; payload event => same event "
+        "possibly longer on B, and the next feed delivers exactly the missing bytes, same final state and total consumption. "
+        "Induction on the steps of the single feed gives chunking independence for feeds of any length and any number of cuts")
+for _h, _ph in [("prefix_step_signature", "WaitingSignature"), ("prefix_step_box_header", "WaitingBoxHeader"), ("prefix_step_jxlp_index", "WaitingJxlpIndex"),
+                ("prefix_step_aux_box", "InAuxBox"), ("prefix_step_codestream", "InCodestream")]:
+    K("ct." + _h, ["C09", "C10"], "jxl-bitstream", PA, PAM, _h,
+      "bounded:buffer <= 24 bytes, every cut (all Inv states in phase %s); specification-level, linked to the code by ct.step_*" % _ph,
+      ["ParseEvents::next (through spec_step)"], _PFX)
